@@ -98,7 +98,7 @@ func (p *Path) UnmarshalText(text []byte) (err error) {
 }
 
 func parseUint31(s string) (uint32, error) {
-	n, err := strconv.ParseUint(s, 0, 31)
+	n, err := strconv.ParseUint(s, 10, 31)
 	if err != nil {
 		return 0, err
 	}
